@@ -450,9 +450,10 @@ Lemma pool_early_put_injects :
     lsrc (wproj 1 early_put_run) = [x41; x42] /\ lsnk (wproj 1 early_put_run) = [x58; x58] /\
     ~ exists rest, lsrc (wproj 1 early_put_run) = lsnk (wproj 1 early_put_run) ++ rest.
 Proof.
-  split; [reflexivity|]. eexists. split; [reflexivity|]. split; [|split; [reflexivity|split; [reflexivity|]]].
-  - repeat constructor; cbn; try lia; intros; discriminate.
-  - intros [rest H]. cbn in H. discriminate.
+  split; [vm_compute; reflexivity|]. eexists. split; [vm_compute; reflexivity|].
+  split; [|split; [vm_compute; reflexivity|split; [vm_compute; reflexivity|]]].
+  - unfold wok; cbn; repeat (apply Forall_cons; [cbn|]); try apply Forall_nil; auto. split; [lia|intros; lia].
+  - intros [rest H]. vm_compute in H. discriminate.
 Qed.
 
 (* non-vacuity of the safe world: two relays' worth of loops, the second reusing the buffer the first put back *)
@@ -469,4 +470,4 @@ Definition reuse_run : list wact :=
 Lemma reuse_run_ok : exists w, wexec false w0 reuse_run = Some w /\
   lsnk (wproj 0 reuse_run) = [x58] /\ lsnk (wproj 1 reuse_run) = [x41; x42] /\ lsnk (wproj 2 reuse_run) = [x43] /\
   wfree w = [] /\ wfresh w = 2.
-Proof. eexists. repeat split; reflexivity. Qed.
+Proof. eexists. split; [vm_compute; reflexivity|]. repeat split; vm_compute; reflexivity. Qed.
